@@ -417,6 +417,10 @@ type textWriter struct {
 // It throws an error if the stream is not an output text stream.
 func (t textWriter) Write(p []byte) (int, error) {
 	s := t.stream
+	if s.sink == nil { // A stream without a sink takes everything and keeps nothing.
+		s.position += int64(len(p))
+		return len(p), nil
+	}
 	n, err := s.sink.Write(p)
 	s.position += int64(n)
 	return n, err
@@ -430,6 +434,10 @@ type binaryWriter struct {
 // It throws an error if the stream is not an output binary stream.
 func (b binaryWriter) Write(p []byte) (int, error) {
 	s := b.stream
+	if s.sink == nil { // A stream without a sink takes everything and keeps nothing.
+		s.position += int64(len(p))
+		return len(p), nil
+	}
 
 	n, err := s.sink.Write(p)
 	s.position += int64(n)
